@@ -1421,6 +1421,21 @@ func c18EmitYAMLDoc(out *vfOut, doc string) {
 		if bad := c18InvalidAccepted(w); bad != "" {
 			monOK, msg = false, bad
 		}
+		// the rejection clause on the document itself (reference reading of
+		// the texts by the standard library)
+		last := map[[2]int]string{}
+		for _, f := range fs {
+			k := 0
+			if f.isEnd {
+				k = 1
+			}
+			last[[2]int{f.day, k}] = f.text
+		}
+		for _, txt := range last {
+			if d, perr := time.ParseDuration(txt); perr == nil && d%time.Minute != 0 {
+				monOK, msg = false, "duration that is not a whole number of minutes accepted"
+			}
+		}
 	}
 	c := vfCase{
 		Coq:        vfApp("C18.CYamlText", c18CoqFields(fs), vfZ(code), days, c18CoqBack(back)),
